@@ -36,6 +36,8 @@ def get_transforms(input, lim=None):
         name, dtype, params = c.parts()
         if dtype.lower() in ('tr', '*tr'):
             name, params = normalize_transform(name, dtype, params)
+            if name in d:
+                raise ValueError(f'transformation TR{name} is defined twice')
             d[name] = params
             n += 1
             if lim and n > lim:
